@@ -281,7 +281,7 @@ def _is_floor_scaled(t, mul, div):
     if len(t.p) != 1:
         return False
     (mono, coef), = t.p.items()
-    return coef == mul and len(mono) == 1 and mono[0].startswith("floordiv(") and mono[0].endswith(f",{div})")
+    return coef == mul and len(mono) == 1 and mono[0] == f"floordiv(parent_stream.tell(),{div})"
 
 
 def _inline_super(ctx, fn, pr, base_fn, rule):
